@@ -36,7 +36,7 @@ func asciiSafe(s string) string {
 	s = strings.ReplaceAll(s, letter, placeholder)
 	var b strings.Builder
 	for i := 0; i < len(s); i++ {
-		if s[i] >= 0x80 || (s[i] < 0x20 && s[i] != '\n' && s[i] != '\t' && s[i] != '\r') {
+		if s[i] >= 0x7f || (s[i] < 0x20 && s[i] != '\n' && s[i] != '\t' && s[i] != '\r') {
 			fmt.Fprintf(&b, "{%02X}", s[i])
 		} else {
 			b.WriteByte(s[i])
